@@ -17,7 +17,7 @@ Qed.
 
 (* on scalars == is an equivalence that identifies 1, True and 1.0 (and 0, False, 0.0): two scalars are
    == exactly when they have the same code, whichever side the scalar stands *)
-Inductive scode := SNum (z : Z) | SStr (s : str) | SBytes (s : str) | SNone | SOther.
+Inductive scode := SNum (z : Z) | SStr (s : str) | SBytes (s : str) | SNone | SSet (e : list Z) | SOther.
 Definition code (v : val) : scode :=
   match v with
   | VInt z => SNum (2 * z)
@@ -26,6 +26,7 @@ Definition code (v : val) : scode :=
   | VStr s => SStr s
   | VBytes s => SBytes s
   | VNone => SNone
+  | VSet e => SSet e
   | _ => SOther
   end.
 
@@ -35,7 +36,9 @@ Proof.
   intro S. destruct x; try discriminate; destruct y; unfold code; cbn [veq num2]; (split; split; intro H);
     try discriminate; try reflexivity;
     try (apply Z.eqb_eq in H; congruence); try (apply str_eqb_eq in H; congruence);
-    try (injection H as H; apply Z.eqb_eq; exact H); try (injection H as ->; apply str_eqb_eq; reflexivity).
+    try (injection H as H; apply Z.eqb_eq; exact H); try (injection H as ->; apply str_eqb_eq; reflexivity);
+    try (apply (list_eqb_spec Z.eqb Z.eqb_eq) in H; congruence);
+    try (injection H as ->; apply (list_eqb_spec Z.eqb Z.eqb_eq); reflexivity).
 Qed.
 
 Lemma veq_refl_scalar x : scalar x = true -> veq x x = true.
@@ -75,10 +78,8 @@ Lemma scalar_eq_facts :
                                    /\ veq x (VList []) = false /\ veq x (VDict []) = false).
 Proof.
   split; [exact veq_refl_scalar|]. split; [exact veq_sym_scalar|]. split; [exact veq_trans_scalar|]. split.
-  - intros z b h. repeat split.
-    + cbn [veq num2]. destruct b; destruct z as [|p|p]; try destruct p; reflexivity.
-    + reflexivity.
-    + reflexivity.
+  - intros z b h. split; [|split; reflexivity].
+    cbn [veq num2]. destruct b; destruct z as [|p|p]; try destruct p; reflexivity.
   - intros x H. destruct x; try (exfalso; apply H; reflexivity); repeat split.
 Qed.
 
